@@ -1420,7 +1420,7 @@ func (c *Client) sendSingleMsg(client *smtp.Client, message *Msg) error {
 			client.SetDSNMailReturnOption(string(c.dsnReturnType))
 		}
 	}
-	if err = client.Mail(from); err != nil {
+	if err = client.Mail(envelopeAddress(from)); err != nil {
 		retError := &SendError{
 			Reason: ErrSMTPMailFrom, errlist: []error{err}, isTemp: isTempError(err),
 			affectedMsg: message, errcode: errorCode(err),
@@ -1441,7 +1441,7 @@ func (c *Client) sendSingleMsg(client *smtp.Client, message *Msg) error {
 	rcptNotifyOpt := strings.Join(c.dsnRcptNotifyType, ",")
 	client.SetDSNRcptNotifyOption(rcptNotifyOpt)
 	for _, rcpt := range rcpts {
-		if err = client.Rcpt(rcpt); err != nil {
+		if err = client.Rcpt(envelopeAddress(rcpt)); err != nil {
 			rcptSendErr.Reason = ErrSMTPRcptTo
 			rcptSendErr.errlist = append(rcptSendErr.errlist, err)
 			rcptSendErr.rcpt = append(rcptSendErr.rcpt, rcpt)
@@ -1502,6 +1502,53 @@ func (c *Client) sendSingleMsg(client *smtp.Client, message *Msg) error {
 		}
 	}
 	return nil
+}
+
+// envelopeAddress returns the given mail address in the Mailbox syntax of RFC 5321, as required for
+// the MAIL FROM and RCPT TO commands.
+//
+// Msg.GetSender and Msg.GetRecipients return addresses with an unquoted local part. A local part that
+// is not a Dot-string (e.g. because it holds blanks or characters like '<', '>' or '@') has to be
+// transmitted as Quoted-string, otherwise the server sees a different mailbox or a broken command.
+//
+// Parameters:
+//   - addr: The mail address with unquoted local part.
+//
+// Returns:
+//   - The mail address with the local part quoted, if required.
+func envelopeAddress(addr string) string {
+	at := strings.LastIndex(addr, "@")
+	if at < 0 {
+		return addr
+	}
+	local, domain := addr[:at], addr[at+1:]
+
+	isDotString := local != ""
+	for i := 0; i < len(local) && isDotString; i++ {
+		char := local[i]
+		switch {
+		case char >= 'a' && char <= 'z', char >= 'A' && char <= 'Z', char >= '0' && char <= '9':
+		case strings.IndexByte("!#$%&'*+-/=?^_`{|}~", char) >= 0:
+		case char >= 0x80:
+		case char == '.' && i > 0 && i < len(local)-1 && local[i-1] != '.':
+		default:
+			isDotString = false
+		}
+	}
+	if isDotString {
+		return addr
+	}
+
+	quoted := strings.Builder{}
+	quoted.WriteByte('"')
+	for i := 0; i < len(local); i++ {
+		if local[i] == '\\' || local[i] == '"' {
+			quoted.WriteByte('\\')
+		}
+		quoted.WriteByte(local[i])
+	}
+	quoted.WriteByte('"')
+	return quoted.String() + "@" + domain
 }
 
 // checkConn ensures that a required server connection is available and extends the connection
